@@ -40,4 +40,5 @@ with ProcessPoolExecutor(16) as ex:
     rows = list(ex.map(one, patches))
 for label, d, pr, un in rows:
     print(f"{label}: changed {d} proven {pr}" + (f"  UNPROVEN {un}" if un else ""))
-print(f"fully proven: {sum(1 for r in rows if not r[3])} of {len(rows)}")
+# a patch that only deletes or adds items changes no item that has a counterpart: nothing is substituted, so nothing is "proven"
+print(f"fully proven: {sum(1 for r in rows if not r[3] and r[1] > 0)} of {len(rows)}" + (f"  (no changed item with a counterpart: {sum(1 for r in rows if r[1] == 0)})" if any(r[1] == 0 for r in rows) else ""))
